@@ -77,6 +77,25 @@ def run_cell(cell, seed):
             continue
         okc, d, ratio = util.compare_many([('level %d' % (j + 1), y[j], ref[j]) for j in range(J)], tol)
         out.append(res(HELD, case, 'M-REF', ratio=ratio) if okc else res(VIOLATED, case, 'M-REF', d, ratio=ratio))
+    # history: overwrite the filter buffers in place with other taps of the same length, use again
+    from . import c01
+    other = c01.same_length_other(cell['wave'])
+    if other is not None:
+        cell2 = dict(cell, wave=other, reloaded_from=cell['wave'])
+        mod2 = build(cell)
+        xr = util.make_input('randn', [cell['N'], cell['C']] + sp, seed + 77)
+        if util.call_lib(mod2, xr)[0]:
+            mod2.load_state_dict(build(cell2).state_dict())
+            ok, y = util.call_lib(mod2, xr)
+            case = {'cell': cell2, 'input': 'reload-randn'}
+            if not ok:
+                out.append(res(VIOLATED, case, 'M-REF', 'library raised %r after an in-place filter reload' % (y,)))
+            else:
+                ref = refs.swt2(util.np64(xr), other, J)
+                tol = 1e-11 * refs.l1gain(other) ** (2 * J) * float(xr.abs().max())
+                okc, d, ratio = util.compare_many([('level %d' % (j + 1), y[j], ref[j]) for j in range(min(J, len(y)))], tol)
+                out.append(res(HELD, case, 'M-REF', ratio=ratio) if okc and len(y) == J else
+                           res(VIOLATED, case, 'M-REF', d or 'wrong number of levels', ratio=ratio))
     # shift equivariance
     x = util.make_input('randn', [1, cell['C']] + sp, seed + 5)
     ok, y0 = util.call_lib(mod, x)
